@@ -136,7 +136,7 @@ func runGammaInc(c *fw.Ctx) {
 		}
 		b.flush(cs)
 	})
-	c.Cases("gammainc.sweep", c.N(1500, 40000), func(cs *fw.Case) {
+	c.Cases("gammainc.sweep", c.N(1500, 20000), func(cs *fw.Case) {
 		b := &rec{}
 		for i := 0; i < 4; i++ {
 			a, x := gammaIncSweepPoint(cs.R)
